@@ -4,12 +4,11 @@ use crate::support::*;
 use educe::Educe;
 use core::cmp::Ordering;
 #[derive(Educe)]
-#[repr(i64)]
-#[educe(Ord, Eq, PartialEq)]
-pub enum T { B(#[educe(Ord(method = "m_cmp", rank("1")))] A<0>, #[educe(Ord(method = m_cmp))] A<0>, A<2>) = 3, C }
-impl PartialOrd for T { fn partial_cmp(&self, o: &Self) -> Option<Ordering> { Some(::core::cmp::Ord::cmp(self, o)) } }
-pub fn values() -> Vec<T> { vec![T::B(A(1), A(7), A(7)), T::B(A(1), A(7), A(1)), T::B(A(0), A(7), A(0)), T::B(A(7), A(0), A(7)), T::B(A(0), A(1), A(7)), T::B(A(0), A(7), A(7)), T::B(A(1), A(0), A(1)), T::B(A(0), A(0), A(1)), T::B(A(0), A(0), A(0)), T::B(A(1), A(0), A(0)), T::B(A(7), A(7), A(0)), T::B(A(7), A(1), A(0)), T::B(A(0), A(0), A(7)), T::B(A(7), A(1), A(7)), T::B(A(1), A(1), A(7)), T::B(A(0), A(1), A(0)), T::B(A(7), A(7), A(7)), T::B(A(1), A(7), A(0)), T::C] }
-pub fn show(x: &T) -> String { #[allow(unused_variables)] match x { T::B(p0, p1, p2) => format!("B({},{},{})", sv(p0), sv(p1), sv(p2)), T::C => format!("C()") } }
-pub fn o_disc(x: &T) -> i128 { match x { T::B(_, _, _) => 3, T::C => 4 } }
-pub fn o_cmp(a: &T, b: &T) -> Ordering { match (a, b) { (T::B(a0, a1, a2), T::B(b0, b1, b2)) => { let c = m_cmp(a1, b1); if c != Ordering::Equal { return c; } let c = ::core::cmp::Ord::cmp(a2, b2); if c != Ordering::Equal { return c; } let c = m_cmp(a0, b0); if c != Ordering::Equal { return c; } Ordering::Equal }, (T::C, T::C) => {  Ordering::Equal }, _ => o_disc(a).cmp(&o_disc(b)) } }
-pub fn run(out: &mut Out) { let vs = values(); for (i, a) in vs.iter().enumerate() { for (j, b) in vs.iter().enumerate() { let e = o_cmp(a, b); let g = ::core::cmp::Ord::cmp(a, b); out.check(g == e, "ord_4", "cmp", || format!("cmp({}, {}) = {:?} expected {:?}", show(a), show(b), g, e)); } } }
+#[educe(PartialEq, Eq, PartialOrd)]
+pub struct T(#[educe(PartialOrd(rank(3)))] A<0>, #[educe(PartialOrd(rank = 4i64))] A<1>);
+
+pub fn values() -> Vec<T> { vec![T(A(0), A(0)), T(A(0), A(1)), T(A(0), A(7)), T(A(1), A(0)), T(A(1), A(1)), T(A(1), A(7)), T(A(7), A(0)), T(A(7), A(1)), T(A(7), A(7))] }
+pub fn show(x: &T) -> String { #[allow(unused_variables)] match x { T(p0, p1) => format!("T({},{})", sv(p0), sv(p1)) } }
+pub fn o_disc(x: &T) -> i128 { match x { T(_, _) => 0 } }
+pub fn o_pcmp(a: &T, b: &T) -> Option<Ordering> { match (a, b) { (T(a0, a1), T(b0, b1)) => { match ::core::cmp::PartialOrd::partial_cmp(a0, b0) { Some(Ordering::Equal) => (), x => return x } match ::core::cmp::PartialOrd::partial_cmp(a1, b1) { Some(Ordering::Equal) => (), x => return x } Some(Ordering::Equal) } } }
+pub fn run(out: &mut Out) { let vs = values(); for (i, a) in vs.iter().enumerate() { for (j, b) in vs.iter().enumerate() { let e = o_pcmp(a, b); let g = ::core::cmp::PartialOrd::partial_cmp(a, b); out.check(g == e, "ord_4", "partial_cmp", || format!("partial_cmp({}, {}) = {:?} expected {:?}", show(a), show(b), g, e)); } } }
